@@ -11,7 +11,9 @@ CLAIMED = {
         "text": "TLC model-checks the operational model of the solver (spec/Vpsc.tla, exact rationals): every instance on 3 "
                 "variables (feasibility, KKT certificate, brute-force optimality over forests, termination), simulation on 5; "
                 "the real solver is bound to it by trace validation: every lattice instance and seeded random instances are "
-                "solved by labella.vpsc and TLC re-solves each with the model and compares positions, flags and cost.",
+                "solved by labella.vpsc and TLC re-solves each with the model and compares positions, flags and cost. Re-solving "
+                "(setDesiredPositions + solve on the structure a previous run left) is the model action Retarget: checked from every end "
+                "state of the 3-variable lattice (VpscResolve.tla) and on observed re-solves (small: exact optimum; large: certificates).",
         "note": "Exact optimality inside the 32-bit envelope of the model (<= 8 variables, weights 1..3, scales 1..2); beyond it (to 60 variables, "
                 "weights 1e-2..1e10) termination, feasibility, cost consistency and optimality by certificate (a cheaper exactly-feasible point "
                 "proposed by the harness and verified by TLC in BigNat = violation). The solver's internal steps are wrapped at run time and "
@@ -63,7 +65,9 @@ CLAIMED.update({
         "text": "TLC enumerates every call history (set-labels / set-options / compute / foreign-compute) of the engine model Engine.tla up to a bound; "
                 "each maximal history is replayed on one real Force and every compute is compared with a fresh engine on fresh labels for the "
                 "configuration the model predicts (accumulated options); seeded random longer histories are validated the same way.",
-        "note": "The model abstracts the layout function (specified in Chain/Vpsc) and tracks only cross-call state; stale aspects are modelled as flags.",
+        "note": "The model abstracts the layout function (specified in Chain/Vpsc) and tracks only cross-call state; stale aspects are modelled as flags. "
+                "Reported alongside (drift only, no verdict): conformance of labella.node.Node with the heap model NodeHeap.tla along TLC-generated "
+                "and random call histories (every observer of every node after every call).",
         "technique": "TLA+ history model; TLC-generated histories replayed into the code; trace validation of recorded histories",
         "design_ref": "DESIGN.md section 8 (C06)",
     },
@@ -104,8 +108,11 @@ CLAIMED.update({
         "text": "TLC evaluates, in exact BigNat arithmetic on milliseconds since the epoch, that every mapped position observed from TimeScale is the "
                 "affine image of elapsed time (cross-multiplied), end points map exactly, later instants map strictly farther, invert returns the "
                 "instant within 1 ms, and the result agrees with a LinearScale on epoch milliseconds; Tz.tla shows at design level why local-time "
-                "conversions would break proportionality.",
-        "note": "Floats carried exactly (x 1e9) as BigNat; tolerance 1e-9 of the range magnitude times the extrapolation factor.",
+                "conversions would break proportionality. Call histories (domain/range/clamp/nice/copy/ticks on up to 4 scales) generated from "
+                "the scale heap model's state graph and at random are replayed on real TimeScale objects: after every call every scale must "
+                "map the end points of the domain it reports onto the range it reports.",
+        "note": "Floats carried exactly (x 1e9) as BigNat; tolerance 1e-9 of the range magnitude times the extrapolation factor. A slice of the "
+                "records is taken with the process in a DST zone (the local zone is no input of the property).",
         "technique": "trace validation of TimeScale call/return records with exact arithmetic in TLA+ (TLC); small TLA+ zone model",
         "design_ref": "DESIGN.md section 8 (C15)",
     },
